@@ -49,6 +49,8 @@ func (publisher *Publisher) Publish(fileWriter core.FileWriter, parallel int) (e
 	files := publisher.Files(parallel)
 	util.WorkerPool(parallel, func(_ int) {
 		for file := range files {
+			verifPoint("pub.consume", file.Name, nil)
+
 			fileErr := fileWriter.WriteFile(file)
 			if fileErr != nil {
 				err = fileErr
@@ -176,16 +178,30 @@ func (publisher *Publisher) sendStatisticsFiles(files chan *core.File) {
 }
 
 func (publisher *Publisher) sendFiles(files chan *core.File) {
+	verifPoint("pub.produce", "individual", nil)
+
 	publisher.sendIndividualFiles(files)
+	verifPoint("pub.produce", "place", nil)
+
 	publisher.sendPlaceFiles(files)
+	verifPoint("pub.produce", "family", nil)
+
 	publisher.sendFamilyFiles(files)
+	verifPoint("pub.produce", "surname", nil)
+
 	publisher.sendSurnameFiles(files)
+	verifPoint("pub.produce", "source", nil)
+
 	publisher.sendSourceFiles(files)
+	verifPoint("pub.produce", "statistics", nil)
+
 	publisher.sendStatisticsFiles(files)
 }
 
 func (publisher *Publisher) Places() map[string]*place {
 	if publisher.placesMap == nil {
+		verifPoint("pub.places.build", nil, nil)
+
 		publisher.placesMap = map[string]*place{}
 
 		// Get all of the unique place names.
